@@ -644,7 +644,7 @@ func main() {
 			"in-memory store (stor.HeapStor) with the real StartConcur pipeline; file-backed close/reopen is exercised by C05 and C20",
 			"bounded to the alphabets and depths reported in coverage",
 		},
-		QuickBudget: 80, ThoroughBudget: 900,
+		QuickBudget: 70, ThoroughBudget: 900,
 		Procs: 16,
 		Run:   run, Replay: replay,
 	})
